@@ -15,11 +15,15 @@ Model of the value path of one payload field.
 External functions are parameters, bundled in `Ext`:
 * `parseF64` — Rust `str::parse::<f64>` (string ↦ bit pattern), `fmtF64` — `f64::to_string`;
 * `jsonParse` — the verdict of `serde_json::from_str::<Value>` on a string, reduced to what
-  `to_json` looks at.
+  `to_json` looks at;
+* `walFloat` — what a finite `f64` is after `serde_json::to_string` (ryu, shortest digits) and
+  `serde_json::from_str` (the crate is built without its `float_roundtrip` feature, and its
+  default number parser is not correctly rounded — the check observes last-bit differences).
 
-An `f64` is its 64-bit pattern (a `Nat`). A JSON array/object is opaque: it is identified by
-the text `serde_json::to_string` gives it (`Json.nested`). `ScalarValue::Binary` is not
-modelled (no ingest path produces it).
+An `f64` is its 64-bit pattern (a `Nat`). A Rust `String` is its UTF-8 byte list (`Bytes`);
+`std::str::from_utf8` is `validUtf8`. A JSON array/object is opaque: it is identified by the
+text `serde_json::to_string` gives it (`Json.nested`). `ScalarValue::Binary` is not modelled
+(no ingest path produces it).
 -/
 namespace Snel.Value
 open Snel.ColumnBlock
@@ -38,8 +42,8 @@ inductive Json
   | null
   | bool (b : Bool)
   | num (n : JNum)
-  | str (s : String)
-  | nested (text : String)
+  | str (s : Bytes)
+  | nested (text : Bytes)
   deriving DecidableEq, Repr
 
 inductive Scalar
@@ -48,12 +52,12 @@ inductive Scalar
   | int (i : Int)
   | float (bits : Nat)
   | ts (i : Int)
-  | utf8 (s : String)
+  | utf8 (s : Bytes)
   deriving DecidableEq, Repr
 
 /-- What `to_json` learns from `serde_json::from_str::<Value>(s)`. -/
 inductive Verdict
-  | container (text : String)   -- parsed to an object or array; `text` = its `to_string`
+  | container (text : Bytes)    -- parsed to an object or array; `text` = its `to_string`
   | number (n : JNum)
   | other                       -- parsed to a string, boolean or null
   | invalid                     -- parse error
@@ -61,8 +65,22 @@ inductive Verdict
 
 structure Ext where
   parseF64 : Bytes → Option Nat
-  fmtF64 : Nat → String
-  jsonParse : String → Verdict
+  fmtF64 : Nat → Bytes
+  jsonParse : Bytes → Verdict
+  walFloat : Nat → Nat
+
+def digitByte (d : Nat) : UInt8 := UInt8.ofNat (48 + d)
+
+/-- decimal digits of `n`, least significant first (`fuel` digits at most) -/
+def digitsRev : Nat → Nat → Bytes
+  | 0, _ => []
+  | f + 1, n => if n < 10 then [digitByte n] else digitByte (n % 10) :: digitsRev f (n / 10)
+
+/-- `u64::to_string` / the digits of `i64::to_string` (values below `10^20`) -/
+def natDec (n : Nat) : Bytes := (digitsRev 20 n).reverse
+
+/-- `i64::to_string` -/
+def intDec (i : Int) : Bytes := if i < 0 then 45 :: natDec (-i).toNat else natDec i.toNat
 
 def isFinite (bits : Nat) : Bool := (bits / 4503599627370496) % 2048 != 2047
 
@@ -73,7 +91,7 @@ def intJson (i : Int) : Json :=
 def ofJson : Json → Scalar
   | .null => .null
   | .bool b => .bool b
-  | .num (.pos u) => if u ≤ i64Max then .int u else .utf8 (toString u)
+  | .num (.pos u) => if u ≤ i64Max then .int u else .utf8 (natDec u)
   | .num (.neg m) => .int (-(m : Int))
   | .num (.flt b) => .float b
   | .str s => .utf8 s
@@ -102,15 +120,21 @@ def serdeJson : Scalar → Json
   | .ts i => intJson i
   | .utf8 s => .str s
 
+/-- The JSON text of the WAL line read back by `serde_json::from_str`: identity on the data
+model except for the float text round trip, which is `x.walFloat`. -/
+def jsonText (x : Ext) : Json → Json
+  | .num (.flt b) => .num (.flt (x.walFloat b))
+  | j => j
+
 /-- WAL append + recovery of one payload value. -/
-def walRoundtrip (v : Scalar) : Scalar := ofJson (serdeJson v)
+def walRoundtrip (x : Ext) (v : Scalar) : Scalar := ofJson (jsonText x (serdeJson v))
 
 /-! ### schema types -/
 
 inductive FieldType
   | string | u64 | i64 | f64 | bool | timestamp | date
   | optional (inner : FieldType)
-  | enum (variants : List String)
+  | enum (variants : List Bytes)
   deriving Repr
 
 /-- `ColumnWriter::write_all`: schema type → physical type (payload fields). -/
@@ -147,58 +171,115 @@ def conforms : FieldType → Json → Bool
 
 /-! ### write side: scalar → column string -/
 
-def utf8Bytes (s : String) : Bytes := s.toUTF8.data.toList
-
-def ofUtf8? (b : Bytes) : Option String := String.fromUTF8? ⟨b.toArray⟩
-
 /-- `ColumnGroupBuilder::add` for a payload field (the `event_id` special case is a core
 field). -/
-def colString (x : Ext) : Scalar → String
+def colString (x : Ext) : Scalar → Bytes
   | .utf8 s => s
-  | .int i => toString i
-  | .ts i => toString i
+  | .int i => intDec i
+  | .ts i => intDec i
   | .float b => x.fmtF64 b
-  | .bool b => if b then "true" else "false"
-  | .null => ""
+  | .bool b => if b then [116, 114, 117, 101] else [102, 97, 108, 115, 101]
+  | .null => []
 
 /-! ### read side -/
+
+/-- `std::str::from_utf8(bytes).is_ok()`: well-formed UTF-8 (no overlong forms, no
+surrogates, nothing above U+10FFFF). -/
+def validUtf8 : Bytes → Bool
+  | [] => true
+  | b0 :: rest =>
+    let n0 := b0.toNat
+    let cont (b : UInt8) : Bool := 128 ≤ b.toNat && b.toNat ≤ 191
+    if n0 < 128 then validUtf8 rest
+    else if 194 ≤ n0 && n0 ≤ 223 then
+      match rest with
+      | b1 :: r => cont b1 && validUtf8 r
+      | _ => false
+    else if 224 ≤ n0 && n0 ≤ 239 then
+      match rest with
+      | b1 :: b2 :: r =>
+        let lo := if n0 = 224 then 160 else 128
+        let hi := if n0 = 237 then 159 else 191
+        lo ≤ b1.toNat && b1.toNat ≤ hi && cont b2 && validUtf8 r
+      | _ => false
+    else if 240 ≤ n0 && n0 ≤ 244 then
+      match rest with
+      | b1 :: b2 :: b3 :: r =>
+        let lo := if n0 = 240 then 144 else 128
+        let hi := if n0 = 244 then 143 else 191
+        lo ≤ b1.toNat && b1.toNat ≤ hi && cont b2 && cont b3 && validUtf8 r
+      | _ => false
+    else false
 
 /-- `ColumnBlockSnapshot::values_to_scalar` (used by `ZoneCursorLoader`, i.e. compaction). -/
 def cellToScalar : Cell → Scalar
   | .null => .null
   | .i64 v => .int v
-  | .u64 v => if v ≤ i64Max then .int v else .utf8 (toString v)
+  | .u64 v => if v ≤ i64Max then .int v else .utf8 (natDec v)
   | .f64 b => .float b
   | .bool b => .bool b
-  | .bytes b => match ofUtf8? b with | some s => .utf8 s | none => .null
+  | .bytes b => if validUtf8 b then .utf8 b else .null
 
-/-- Unicode `White_Space` (Rust `char::is_whitespace`). -/
-def isWs (c : Char) : Bool :=
-  let n := c.toNat
-  (9 ≤ n && n ≤ 13) || n == 32 || n == 133 || n == 160 || n == 5760
-    || (8192 ≤ n && n ≤ 8202) || n == 8232 || n == 8233 || n == 8239 || n == 8287 || n == 12288
+/-- One leading Unicode `White_Space` character (Rust `char::is_whitespace`) in UTF-8:
+U+0009–000D, U+0020, U+0085, U+00A0, U+1680, U+2000–200A, U+2028, U+2029, U+202F, U+205F,
+U+3000. Returns the rest. -/
+def stripWsPrefix : Bytes → Option Bytes
+  | 194 :: 133 :: r => some r
+  | 194 :: 160 :: r => some r
+  | 225 :: 154 :: 128 :: r => some r
+  | 226 :: 128 :: b :: r =>
+    if (128 ≤ b.toNat && b.toNat ≤ 138) || b.toNat == 168 || b.toNat == 169 || b.toNat == 175 then some r
+    else none
+  | 226 :: 129 :: 159 :: r => some r
+  | 227 :: 128 :: 128 :: r => some r
+  | b :: r => if (9 ≤ b.toNat && b.toNat ≤ 13) || b.toNat == 32 then some r else none
+  | [] => none
+
+/-- The same for one trailing character of the reversed string (bytes reversed). -/
+def stripWsSuffixRev : Bytes → Option Bytes
+  | 133 :: 194 :: r => some r
+  | 160 :: 194 :: r => some r
+  | 128 :: 154 :: 225 :: r => some r
+  | 159 :: 129 :: 226 :: r => some r
+  | 128 :: 128 :: 227 :: r => some r
+  | b :: r =>
+    let ascii := if (9 ≤ b.toNat && b.toNat ≤ 13) || b.toNat == 32 then some r else none
+    match r with
+    | 128 :: 226 :: r' =>
+      if (128 ≤ b.toNat && b.toNat ≤ 138) || b.toNat == 168 || b.toNat == 169 || b.toNat == 175 then some r'
+      else ascii
+    | _ => ascii
+  | [] => none
+
+def trimStart : Nat → Bytes → Bytes
+  | 0, s => s
+  | f + 1, s => match stripWsPrefix s with | some r => trimStart f r | none => s
+
+def trimEndRev : Nat → Bytes → Bytes
+  | 0, s => s
+  | f + 1, s => match stripWsSuffixRev s with | some r => trimEndRev f r | none => s
 
 /-- `str::trim` -/
-def trim (s : String) : String :=
-  String.ofList ((s.toList.dropWhile isWs).reverse.dropWhile isWs).reverse
+def trim (s : Bytes) : Bytes :=
+  let a := trimStart s.length s
+  (trimEndRev a.length a.reverse).reverse
 
 /-- `EventBuilder::add_payload_field`: a string cell of a flushed column is re-typed. -/
-def addPayloadField (x : Ext) (value : String) : Scalar :=
+def addPayloadField (x : Ext) (value : Bytes) : Scalar :=
   let t := trim value
-  if t = "true" then .bool true
-  else if t = "false" then .bool false
-  else if t = "null" then .null
+  if t = [116, 114, 117, 101] then .bool true
+  else if t = [102, 97, 108, 115, 101] then .bool false
+  else if t = [110, 117, 108, 108] then .null
   else
-    let tb := utf8Bytes t
     let asInt : Option Scalar :=
-      if t.toList.head? = some '-' then (parseI64 tb).map .int
-      else match parseU64 tb with
-        | some u => some (if u ≤ i64Max then .int u else .utf8 (toString u))
-        | none => (parseI64 tb).map .int
+      if t.head? = some 45 then (parseI64 t).map .int
+      else match parseU64 t with
+        | some u => some (if u ≤ i64Max then .int u else .utf8 (natDec u))
+        | none => (parseI64 t).map .int
     match asInt with
     | some r => r
     | none =>
-      match x.parseF64 tb with
+      match x.parseF64 t with
       | some b => if isFinite b then .float b else .utf8 value
       | none => .utf8 value
 
@@ -207,10 +288,10 @@ by the column's physical type, then `add_field_u64 / _i64 / _f64 / _bool / add_f
 def cellToBuilt (x : Ext) : Cell → Scalar
   | .null => .null
   | .i64 v => .int v
-  | .u64 v => if v ≤ i64Max then .int v else .utf8 (toString v)
+  | .u64 v => if v ≤ i64Max then .int v else .utf8 (natDec v)
   | .f64 b => if isFinite b then .float b else .null
   | .bool b => .bool b
-  | .bytes b => match ofUtf8? b with | some s => addPayloadField x s | none => .null
+  | .bytes b => if validUtf8 b then addPayloadField x b else .null
 
 /-! ### tiers -/
 
@@ -218,11 +299,11 @@ def cellToBuilt (x : Ext) : Cell → Scalar
 def memTier (v : Scalar) : Scalar := v
 
 /-- WAL-recovered memtable. -/
-def walTier (v : Scalar) : Scalar := walRoundtrip v
+def walTier (x : Ext) (v : Scalar) : Scalar := walRoundtrip x v
 
 /-- The cell a scalar occupies in a flushed column of physical type `phys`. -/
 def flushedCell (x : Ext) (phys : Phys) (v : Scalar) : Cell :=
-  canonCell x.parseF64 phys (utf8Bytes (colString x v))
+  canonCell x.parseF64 phys (colString x v)
 
 /-- Flushed segment read by a query. -/
 def flushedTier (x : Ext) (phys : Phys) (v : Scalar) : Scalar :=
@@ -230,7 +311,7 @@ def flushedTier (x : Ext) (phys : Phys) (v : Scalar) : Scalar :=
 
 /-- One compaction pass over a cell: read as scalar, written again under the same type. -/
 def compactCell (x : Ext) (phys : Phys) (c : Cell) : Cell :=
-  canonCell x.parseF64 phys (utf8Bytes (colString x (cellToScalar c)))
+  canonCell x.parseF64 phys (colString x (cellToScalar c))
 
 /-- Compacted segment read by a query. -/
 def compactedTier (x : Ext) (phys : Phys) (v : Scalar) : Scalar :=
